@@ -514,7 +514,10 @@ theorem visit_sk : ∀ (t : T), visit (sk t) = visit t
   | .node d cs => by
     have hk : (skN d).kind = d.kind := rfl
     have hi : (skN d).id = d.id := rfl
-    simp only [sk, visit, hk, hi, visitAt_sk cs, visitSeq_sk, visitIfThen_sk cs, evalAt_sk cs, skL_length]
+    simp only [sk, visit, hk, hi, visitAt_sk cs, visitSeq_sk, visitIfThen_sk cs, visitAll_sk cs, evalAt_sk cs, skL_length]
+theorem visitAll_sk : ∀ (cs : TL), visitAll (skL cs) = visitAll cs
+  | .nil => rfl
+  | .cons t ts => by simp only [skL, visitAll, visit_sk t, visitAll_sk ts]
 theorem visitAt_sk : ∀ (cs : TL) (i : Nat), visitAt (skL cs) i = visitAt cs i
   | .nil, _ => rfl
   | .cons t ts, 0 => by simp only [skL, visitAt, visit_sk t]
